@@ -105,12 +105,75 @@ def _design(ck, quick, wd):
     ck.extra["forgotten_invalidation_control"] = caught
 
 
+def _corruption_control(ck, exe, wd):
+    """An accepted trace with ONE logged field flipped must be rejected (guards against a trace
+    spec that constrains nothing): validity answer, MRCA answer, edge orientation after rootAt,
+    a dropped leaf, an attached object."""
+    base = os.path.join(wd, "corrupt-base.ndjson")
+    vc.run_driver(exe, ["--mode", "shapes", "--maxn", 4, "--dups", 0, "--uedit", 0, "--unroot", 0, "--eobj", 1, "--anc", 1, "--onechild", 1], base)
+    lines = [json.loads(x) for x in open(base).read().splitlines()]
+
+    def first(pred):
+        for i, ev in enumerate(lines):
+            if pred(ev):
+                return i
+        raise vc.MachineryError("corruption control: no event to corrupt")
+
+    def flip_valid(ev):
+        ev["r"] = "F" if ev["r"] == "T" else "T"
+
+    def flip_mrca(ev):
+        row = ev["rows"][-1]
+        other = [n for n in ev["s"]["n"] if n != row[1]][0]
+        row[1] = other
+        row[2] = other
+
+    def flip_edge(ev):
+        e = ev["s"]["e"][0]
+        e[1], e[2] = e[2], e[1]
+
+    def drop_leaf(ev):
+        ev["rows"][0][1] = ev["rows"][0][1][:-1]
+
+    def flip_obj(ev):
+        was = ev["s"]["eo"][0][1]
+        ev["s"]["eo"][0][1] = 16
+        ev["s"]["oe"] = [[16 if o == was else o, e] for o, e in ev["s"]["oe"]]       # both maps say "object 16"
+
+    cases = [("validity answer", lambda ev: ev["e"] == "QValid" and ev["r"] in ("T", "F"), flip_valid),
+             ("MRCA answer", lambda ev: ev["e"] == "QMrca" and len(ev["s"]["n"]) >= 3 and ev["rows"], flip_mrca),
+             ("edge orientation after rootAt", lambda ev: ev["e"] == "RootAt" and ev["r"] == "ok" and ev["s"]["e"], flip_edge),
+             ("dropped leaf", lambda ev: ev["e"] == "QLeaves" and ev["rows"], drop_leaf),
+             ("attached object", lambda ev: ev["e"] in ("AddSon", "SetFather", "Link") and ev["s"]["eo"], flip_obj)]
+    mod, cfg = _module("tree")
+    res = []
+    for k, (what, pred, mut) in enumerate(cases):
+        i = first(pred)
+        cp = json.loads(json.dumps(lines))
+        mut(cp[i])
+        path = os.path.join(wd, "corrupt-%d.ndjson" % k)
+        with open(path, "w") as f:
+            for ev in cp:
+                f.write(json.dumps(ev, separators=(",", ":")) + "\n")
+        n_ev, rej, st = vc.validate_trace(SPEC, mod, cfg, path, parallel=1)
+        os.remove(path)
+        if not rej:
+            raise vc.MachineryError("corruption control: a trace with a flipped %s (event %d) was accepted" % (what, i))
+        res.append("%s at event %d: rejected at event %d (%s)" % (what, i, rej[0].index, rej[0].invariant or "no step"))
+    n_ev, rej, st = vc.validate_trace(SPEC, mod, cfg, base, parallel=1)
+    if rej:
+        raise vc.MachineryError("corruption control: the uncorrupted base trace is rejected (run the check for details)")
+    os.remove(base)
+    ck.extra["corrupted_trace_control"] = res
+
+
 def run(tier, seed):
     ck = vc.Check("C15", tier, seed)
     quick = tier == "quick"
     wd = vc.workdir("c15")
     _design(ck, quick, wd)
     exe = vc.build_driver("drv_tree", link_lib=True)
+    _corruption_control(ck, exe, wd)
     st = _steer()
     flags = []
     for k, v in sorted(st.items()):
